@@ -52,6 +52,9 @@ func mkRaw(s ref65816.State, stale int, intr byte) cpuh.Raw {
 	if s.E {
 		r.E = 1
 	}
+	if stale != 0 {
+		r.Dirt = 1 // the stale-copy valuations also start from junk in the non-architectural fields
+	}
 	st16 := []uint16{0, 0xFFFF, 0xA5A5}[stale]
 	st8 := byte(st16)
 	if s.P&ref65816.FM != 0 {
